@@ -33,6 +33,8 @@ pub struct Obs {
     pub origin_at_b: Option<String>,
     pub late_events: Vec<String>,
     pub log: Vec<String>,
+    pub trace_bad: Vec<(String, String)>,
+    pub trace_calls: u64,
 }
 
 fn params(unit: &Value) -> (bool, i64, u64, u64, usize, usize) {
@@ -54,6 +56,10 @@ fn ordered_keys() -> (u8, u8) {
     } else {
         (b, a)
     }
+}
+
+pub async fn scenario_pub(sim: Arc<Sim>, unit: Value) -> Obs {
+    scenario(sim, unit).await
 }
 
 async fn scenario(sim: Arc<Sim>, unit: Value) -> Obs {
@@ -136,6 +142,7 @@ async fn scenario(sim: Arc<Sim>, unit: Value) -> Obs {
     for e in drain_events(&mut eb) {
         late.push(format!("b:{}", event_str(&sim, &e)));
     }
+    let (trace_bad, trace_calls) = check_registry_traces(&sim);
     let es = |v: &Vec<PeerEvent>| v.iter().map(|e| event_str(&sim, e)).collect::<Vec<_>>();
     log.push(format!("events a: {:?}", es(&ev_a_raw)));
     log.push(format!("events b: {:?}", es(&ev_b_raw)));
@@ -159,6 +166,8 @@ async fn scenario(sim: Arc<Sim>, unit: Value) -> Obs {
         origin_at_b,
         late_events: late,
         log,
+        trace_bad,
+        trace_calls,
     }
 }
 
@@ -185,6 +194,7 @@ fn judge(o: &Obs) -> Judged {
             sample: None,
         };
     }
+    v.extend(o.trace_bad.clone());
     if !o.lists_ok {
         v.push((
             "not-converged".to_string(),
